@@ -64,6 +64,8 @@ func c04lambda(c *core.Ctx, r *core.Reporter) {
 	r.Decide(nZero > 0, few, "slip.(Lambda).Call", c.Pos(fn.Pos()),
 		fmt.Sprintf("%d raise sites, %d reachable with an empty argument list: %s", nRaise, nZero, strings.Join(sites, " ")))
 
+	c04keyscan(c, r, fn)
+
 	// C04.lam: marker constants compared per top-level loop
 	loops := core.Loops(fn)
 	sets := map[*core.Loop]map[string]bool{}
@@ -112,4 +114,101 @@ func keys(m map[string]bool) []string {
 	}
 	sort.Strings(out)
 	return out
+}
+
+// c04keyscan: while collecting &rest arguments, Lambda.Call looks ahead in the
+// lambda list for a parameter named like a keyword argument to switch to key
+// mode. The look-ahead must start strictly after the descriptor being
+// processed, or the &rest parameter's own name is taken for a declared key.
+func c04keyscan(c *core.Ctx, r *core.Reporter, fn *ssa.Function) {
+	const rule = "C04.keyscan"
+	r.Rule(rule, "in the binding pass of (*Lambda).Call every nested scan over the lambda list (lam.Doc.Args) starts strictly after the index of the descriptor being processed (i+1): starting at i lets the &rest parameter's own name match as a keyword", 1)
+	loops := core.Loops(fn)
+	isDocArgs := func(v ssa.Value) bool { return loadsField(v, core.SlipPath, "FuncDoc", "Args") }
+	n := 0
+	for _, inner := range loops {
+		if inner.Parent == nil {
+			continue
+		}
+		outer := inner.Outermost()
+		// the outer loop must range over Doc.Args: its header has a rangeindex phi
+		var outerIdx *ssa.Phi
+		for _, in := range outer.Header.Instrs {
+			if phi, ok := in.(*ssa.Phi); ok && phi.Comment == "rangeindex" {
+				outerIdx = phi
+			}
+		}
+		if outerIdx == nil {
+			continue
+		}
+		// (a) index loop: a header phi j whose entry edge derives from the outer index, used to index Doc.Args
+		// (b) range over Doc.Args[k:]: a Slice of Doc.Args with Low deriving from the outer index
+		check := func(start ssa.Value, pos token.Pos, what string) {
+			n++
+			ok := startsAfter(start, outerIdx)
+			r.Decide(ok, rule, fmt.Sprintf("slip.(Lambda).Call|look-ahead %d", n), c.Pos(pos), fmt.Sprintf("%s starts at outer index + 1 or later: %v", what, ok))
+		}
+		for _, in := range inner.Header.Instrs {
+			phi, ok := in.(*ssa.Phi)
+			if !ok {
+				continue
+			}
+			usedOnArgs := false
+			for _, rf := range *phi.Referrers() {
+				if ia, ok := rf.(*ssa.IndexAddr); ok && isDocArgs(ia.X) {
+					usedOnArgs = true
+				}
+			}
+			if !usedOnArgs {
+				continue
+			}
+			for ei, e := range phi.Edges {
+				if !inner.Blocks[inner.Header.Preds[ei]] {
+					check(e, phi.Pos(), "index loop over lam.Doc.Args")
+				}
+			}
+		}
+		for b := range inner.Blocks {
+			_ = b
+		}
+		// range form: the ranged slice is computed before the inner loop
+		for _, pred := range inner.Header.Preds {
+			if inner.Blocks[pred] {
+				continue
+			}
+			for _, in := range pred.Instrs {
+				if sl, ok := in.(*ssa.Slice); ok && isDocArgs(sl.X) && sl.Low != nil && outer.Blocks[pred] {
+					check(sl.Low, sl.Pos(), "range over lam.Doc.Args[k:]")
+				}
+			}
+		}
+	}
+}
+
+// startsAfter: v = outer rangeindex value + c with c >= 1 (the loop variable i is rangeindex+1 in go/ssa's rotated range loops).
+func startsAfter(v ssa.Value, outerIdx *ssa.Phi) bool {
+	off := 0
+	for i := 0; i < 6; i++ {
+		switch x := v.(type) {
+		case *ssa.BinOp:
+			if x.Op != token.ADD {
+				return false
+			}
+			if k, ok := x.Y.(*ssa.Const); ok && k.Value != nil {
+				off += int(k.Int64())
+				v = x.X
+				continue
+			}
+			return false
+		case *ssa.Phi:
+			// i itself is outerIdx+1 (t57 = t56 + 1): a plain use of the loop variable i has off 0 relative to i
+			if x == outerIdx {
+				// v = rangeindexphi + off, and i = rangeindexphi + 1
+				return off >= 2
+			}
+			return false
+		}
+		break
+	}
+	return false
 }
